@@ -4,11 +4,11 @@ from props import *
 
 MANIFEST = dict(
     text="Lean: parametric lift theorems (for ANY wrapped function the Map / MapErr / Filter plugin shape delivers the function applied item by item, each result with its item's context, "
-         "ending at the first error; every raw script, both source modes) instantiated per operator by the regenerated `Plugins` fact table, which is decided equal (row by row: lift kind, "
+         "ending at the first error; every raw script, both source modes) instantiated per operator by the regenerated `Plugins` fact table, which is decided EQUAL (row by row: lift kind, "
          "wrapped callee with import path, which parameter at which position, constants) to a hand-maintained expectation; the helpers of plugins/strings vs plugins/bytes are decided to have "
          "the same flavour-erased body except two pinned pairs. Modelled and proved for all inputs: base64 (std/url x padded/raw) decode(encode bs) = bs, Atoi(Itoa n) = n on int64 (ErrRange outside), "
-         "ParseBool(FormatBool b) = b, Ellipsis (both flavours return the same text; slice/heap model: the repaired helper never writes the caller's array, the pinned one only in the truncating branch), "
-         "Go's insertion sort (sort.Slice up to 12 elements) = the stable merge sort, every sorted permutation has the stable sort's key sequence, Sort* machines, reader chunk concatenation. "
+         "ParseBool(FormatBool b) = b, Ellipsis (both flavours return the same text; slice/heap model: the byte helper never writes the caller's array), "
+         "Go's insertion sort (sort.Slice up to 12 elements) = the stable merge sort, every sorted permutation has the stable sort's key sequence, Sort* machines, SortStableFunc = the stable sort, NewIOReader (every script of Read results: chunks = the data of the reads, untouched later, concatenation = bytes produced). "
          "regexp, templates, JSON, gob, CSV, time, Unicode case mapping are uninterpreted parameters: for those the theorem is only that the plugin adds nothing to the wrapped function. "
          "Tie: every plugin operator is run next to the wrapped library function on boundary + seeded inputs (deep comparison, error <-> Error notification, contexts, input and delivered values re-checked "
          "at the end, string vs byte flavour), and the modelled ones are additionally diffed against the Lean model through the driver.",
@@ -20,13 +20,7 @@ WORDS_FAMILY = {'CamelCase', 'KebabCase', 'PascalCase', 'SnakeCase', 'Words'}
 
 # class of accepted deviation -> key of the known finding that must be listed AND still reproduce
 CLASS_KEY = {
-    'sort-stable': 'op=sort.SortStableFunc n>12',
-    'ellipsis-write': 'op=bytes.Ellipsis input-written',
-    'words-multibyte': 'op=bytes.Words valid-multibyte',
     'words-invalid-utf8': 'op=bytes.Words invalid-utf8',
-    'reader-buffer': 'op=stdio.NewIOReader shared-buffer',
-    'reader-data-with-error': 'op=stdio.NewIOReader data-with-error',
-    'random-single-rune': 'op=strings.Random charset=1',
 }
 
 
@@ -60,21 +54,6 @@ def is_utf8(b):
         return False
 
 
-def reads_with_data(cf):
-    items = items_of(cf)
-    total = len(items[0]) if items else 0
-    p = cf.get('p', 'std')
-    if p in ('std', '-', ''):
-        return (total + 1023) // 1024
-    n, rem = 0, total
-    for t in p.split('.'):
-        k = min(int(t), 1024, rem)
-        rem -= k
-        if k > 0:
-            n += 1
-    return n
-
-
 def classify(op, cf, gd, ld):
     """returns (list of accepted-deviation classes, list of violation reasons) for one case"""
     classes, bad = [], []
@@ -92,52 +71,34 @@ def classify(op, cf, gd, ld):
                 if name in ('Sort', 'SortFunc'):
                     continue        # not determined above 12 elements: keys + bag are compared (sort_keys_determined)
                 if gd.get(k) != v:
-                    if gd.get('keys') == ld.get('keys') and gd.get('bag') == ld.get('bag') and gd.get('stable') == '0':
-                        classes.append('sort-stable')
-                    else:
-                        bad.append('model: field out differs')
+                    bad.append('model: field out differs' + (' (SortStableFunc is not stable)' if gd.get('stable') == '0' else ''))
                 continue
             if gd.get(k) != v:
                 bad.append(f'model: field {k} differs')
     # ---- oracles on the implementation
     same = gd.get('same', '1')
     if not same.startswith('1'):
-        if op == 'stdio.NewIOReader' and cf.get('fin', 'eof').startswith('data') and same.startswith('0:len'):
-            classes.append('reader-data-with-error')
-        elif name == 'Random' and plugin in ('strings', 'bytes') and len(item_bytes(cf.get('p', ',').split(',')[1]).decode('utf-8', 'replace')) == 1:
-            classes.append('random-single-rune')
-        else:
-            bad.append('operator output differs from the wrapped function applied item by item (' + same + ')')
+        bad.append('operator output differs from the wrapped function applied item by item (' + same + ')')
     if gd.get('mut') == '1':
-        if op == 'bytes.Ellipsis':
-            classes.append('ellipsis-write')
-        else:
-            bad.append('an input item (or its backing array) was modified')
+        bad.append('an input item (or its backing array) was modified')
     if gd.get('late') == '1':
-        if op == 'stdio.NewIOReader' and reads_with_data(cf) >= 2:
-            classes.append('reader-buffer')
-        else:
-            bad.append('a delivered value changed after delivery')
+        bad.append('a delivered value changed after delivery')
     if gd.get('flav') == '0':
         items = items_of(cf)
-        if name in WORDS_FAMILY and any(max(b, default=0) >= 0x80 for b in items):
-            classes.append('words-multibyte' if all(is_utf8(b) for b in items) else 'words-invalid-utf8')
+        # on valid UTF-8 the flavours must agree; on text that is not valid UTF-8 the byte flavour's
+        # byte-wise treatment is pinned by the existing tests (known finding)
+        if name in WORDS_FAMILY and not all(is_utf8(b) for b in items):
+            classes.append('words-invalid-utf8')
         else:
             bad.append('string and byte flavour disagree on the same text')
     if gd.get('concat') == '0':
-        if op == 'stdio.NewIOReader' and cf.get('fin', 'eof').startswith('data'):
-            classes.append('reader-data-with-error')
-        else:
-            bad.append('concatenation of the emitted chunks differs from the input')
+        bad.append('concatenation of the emitted chunks differs from the input')
     if gd.get('written') == '0':
         bad.append('bytes written differ from the wrapped writer used directly')
     if gd.get('sorted') == '0' or gd.get('perm') == '0':
         bad.append('output is not a sorted permutation of the input')
     if gd.get('stable') == '0' and op == 'sort.SortStableFunc':
-        if n > 12:
-            classes.append('sort-stable')
-        else:
-            bad.append('SortStableFunc reordered equal elements')
+        bad.append('SortStableFunc reordered equal elements')
     if gd.get('rel') == '0':
         bad.append('source not subscribed exactly once and released')
     if gd.get('gram') == '0':
@@ -167,7 +128,7 @@ def table_diff():
     try:
         gen = rows(os.path.join(R.LEAN, 'RoGen', 'Plugins.lean'), 'table')
         exp = rows(os.path.join(R.LEAN, 'RoProps', 'C18Expected.lean'), 'table')
-        rep = rows(os.path.join(R.LEAN, 'RoProps', 'C18Expected.lean'), 'repaired')
+        rep = {}
     except Exception as e:      # noqa
         return ['(could not diff the tables: %s)' % e]
     out = []
@@ -179,29 +140,6 @@ def table_diff():
             out.append(f'{k}: new operator, no expected row')
         elif g != e and g != rep.get(k):
             out.append(f'{k}:\n    regenerated: {g[0]}\n    expected:    {e[0]}')
-    return out
-
-
-def repaired_ops():
-    """operators whose regenerated row / helper is the REPAIRED one of RoProps/C18Expected.lean: the
-    driver then answers with the repaired model (both variants are proved in RoProps/C18.lean)"""
-    out = []
-    try:
-        gen = open(os.path.join(R.LEAN, 'RoGen', 'Plugins.lean')).read()
-        exp = open(os.path.join(R.LEAN, 'RoProps', 'C18Expected.lean')).read()
-        rep = exp[exp.index('def repaired :'):exp.index('def helperDiffs')]
-        squash = lambda t: re.sub(r'\s+', ' ', t)
-        for r in re.findall(r'^  \{ .*?\}(?=,\n  \{ |\n\])', rep, flags=re.S | re.M):
-            m = re.search(r'plugin := txt% "([^"]+)", name := txt% "([^"]+)"', r)
-            if m and squash(r) in squash(gen):
-                out.append(m.group(1).split('/')[-1] + '.' + m.group(2))
-        # helper of bytes.Ellipsis: repaired iff the pinned in-place append is gone
-        hel = gen[gen.index('def helpers :'):]
-        m = re.search(r'pkg := txt% "bytes", name := txt% "ellipsis",\n    body := (.*?)\n', hel)
-        if m and 'return append(bytes.TrimSpace(' not in m.group(1):
-            out.append('bytes.Ellipsis')
-    except Exception as e:      # noqa
-        pass
     return out
 
 
@@ -223,10 +161,6 @@ def raise_stack_limit():
 
 def check(ctx):
     raise_stack_limit()
-    fixed = repaired_ops()
-    R.GOENV['VERIF_C18_FIXED'] = ','.join(fixed)
-    if fixed:
-        ctx.notes.append('regenerated table has repaired rows for: ' + ', '.join(fixed) + ' (the repaired model variant is used for them)')
     rows = R.run_kind(ctx, 'plugin')
     listed = {k['key'] for k in R.load_known('C18') if k.get('status') == 'open'}
     reproduced = {key for key in listed if any(s.startswith(key + ':') for s in ctx.known)}
